@@ -132,7 +132,7 @@ def r15_2_stale(ctx, prog):
                        "reliable: RtoManager::new%r, no estimator call" % (new[0][2] if new else None,), info["where"])
             continue
         n += 1
-        last = pa.choice(r"^variant\(client\.rtt\.0\.\d+\)$")
+        last = pa.choice(r"^variant\(client\.rtt\.0\.last_request\)$")
         gt = pa.choice(r"^ret:gt@")
         reset = pa.calls_to(r"RttCalcuator::reset$")
         key = "last_request=%s,stale=%s,%s" % (last, gt, pa.ret_kind)
@@ -145,7 +145,7 @@ def r15_2_stale(ctx, prog):
             else:
                 e = C.expr_of(pa, g[0][2])
                 exp = (("sub", "top:instant", "top:client.rtt.0.3.0"), ("Duration::from_secs", 600))
-                lhs_ok = isinstance(e[0], tuple) and e[0][0] == "Instant::sub" and e[0][1] == "top:instant" and "client.rtt.0" in repr(e[0][2])
+                lhs_ok = isinstance(e[0], tuple) and e[0][0] == "Instant::sub" and e[0][1] == "top:instant" and "client.rtt.0.last_request" in repr(e[0][2])
                 rhs_ok = e[1] == ("Duration::from_secs", 600)
                 if not (lhs_ok and rhs_ok):
                     ok, why = False, "staleness test is %s > %s" % (show(e[0]), show(e[1]))
